@@ -178,6 +178,8 @@ pub struct HttpReq {
     pub headers: Vec<(String, Vec<u8>)>,
     /// empty = no payload at all
     pub chunks: Vec<bytes::Bytes>,
+    /// in process only: seconds of (virtual) time that pass before the i-th chunk arrives
+    pub stalls: Vec<u32>,
 }
 
 #[derive(Clone, Debug, Default)]
@@ -236,9 +238,23 @@ pub fn build_request(r: &HttpReq) -> actix_http::Request {
     if r.chunks.is_empty() {
         req
     } else {
-        let chunks: Vec<Result<bytes::Bytes, actix_http::error::PayloadError>> =
-            r.chunks.iter().map(|c| Ok(c.clone())).collect();
-        let stream: actix_http::BoxedPayloadStream = Box::pin(futures::stream::iter(chunks));
+        let chunks: Vec<bytes::Bytes> = r.chunks.clone();
+        let stalls: Vec<u32> = r.stalls.clone();
+        let stream: actix_http::BoxedPayloadStream = if stalls.iter().all(|s| *s == 0) {
+            Box::pin(futures::stream::iter(chunks.into_iter().map(Ok::<_, actix_http::error::PayloadError>)))
+        } else {
+            // a slow upload: time passes (on the runtime's clock, which the caller has paused, so
+            // it costs no wall time) before a chunk arrives
+            Box::pin(futures::stream::unfold((chunks.into_iter(), stalls.into_iter()), |(mut c, mut s)| async move {
+                let chunk = c.next()?;
+                if let Some(secs) = s.next() {
+                    if secs > 0 {
+                        tokio::time::sleep(std::time::Duration::from_secs(secs as u64)).await;
+                    }
+                }
+                Some((Ok::<_, actix_http::error::PayloadError>(chunk), (c, s)))
+            }))
+        };
         let (req, _) = req.replace_payload(actix_http::Payload::Stream { payload: stream });
         req
     }
@@ -253,7 +269,16 @@ async fn serve(mut ws: WebServer, rx: mpsc::Receiver<Msg>) {
             match rx.recv() {
                 Ok(Msg::Req(r, back)) => {
                     let req = build_request(&r);
-                    let resp = match test::try_call_service(&app, req).await {
+                    let slow = r.stalls.iter().any(|s| *s > 0);
+                    if slow {
+                        // virtual time: timers fire in order, nobody waits
+                        tokio::time::pause();
+                    }
+                    let result = test::try_call_service(&app, req).await;
+                    if slow {
+                        tokio::time::resume();
+                    }
+                    let resp = match result {
                         Ok(resp) => {
                             let status = resp.status().as_u16();
                             let headers = resp
@@ -362,6 +387,7 @@ pub fn req_add_version(c: Uuid, parent: Uuid, chunks: Vec<bytes::Bytes>) -> Http
             ("Content-Type".into(), CT_HS.as_bytes().to_vec()),
         ],
         chunks,
+        stalls: vec![],
     }
 }
 pub fn req_get_child(c: Uuid, parent: Uuid) -> HttpReq {
@@ -370,6 +396,7 @@ pub fn req_get_child(c: Uuid, parent: Uuid) -> HttpReq {
         path: format!("/v1/client/get-child-version/{parent}"),
         headers: vec![("X-Client-Id".into(), c.to_string().into_bytes())],
         chunks: vec![],
+        stalls: vec![],
     }
 }
 pub fn req_add_snapshot(c: Uuid, v: Uuid, chunks: Vec<bytes::Bytes>) -> HttpReq {
@@ -381,6 +408,7 @@ pub fn req_add_snapshot(c: Uuid, v: Uuid, chunks: Vec<bytes::Bytes>) -> HttpReq 
             ("Content-Type".into(), CT_SNAP.as_bytes().to_vec()),
         ],
         chunks,
+        stalls: vec![],
     }
 }
 pub fn req_get_snapshot(c: Uuid) -> HttpReq {
@@ -389,6 +417,7 @@ pub fn req_get_snapshot(c: Uuid) -> HttpReq {
         path: "/v1/client/snapshot".into(),
         headers: vec![("X-Client-Id".into(), c.to_string().into_bytes())],
         chunks: vec![],
+        stalls: vec![],
     }
 }
 
@@ -506,6 +535,11 @@ pub struct Driver {
     pub db_path: Option<PathBuf>,
     server: Option<Server>,
     http: Option<HttpHandle>,
+    /// in-process uploads arrive in two halves with this many seconds of (virtual) time between them
+    pub stall_secs: u32,
+    /// appended to the Content-Type of uploads (e.g. "; charset=utf-8"): parameters do not change
+    /// the media type (C14 only)
+    pub ct_params: Option<String>,
     /// add a Content-Length header to uploads, as a real client sending an unchunked body does
     pub content_length: bool,
     /// how body bytes are cut into chunks for Http (None = one chunk)
@@ -553,6 +587,8 @@ impl Driver {
             db_path: None,
             server: None,
             http: None,
+            stall_secs: 0,
+            ct_params: None,
             content_length: false,
             chunker: None,
             ext: None,
@@ -607,6 +643,16 @@ impl Driver {
         self.allow = allow;
         self.server = None;
         self.build();
+    }
+
+    /// a slow upload: two halves, the second after `stall_secs`
+    fn slow(&self, rq: &mut HttpReq, data: &[u8]) {
+        if self.stall_secs > 0 && data.len() >= 2 && self.ext.is_none() {
+            let b = bytes::Bytes::copy_from_slice(data);
+            let mid = data.len() / 2;
+            rq.chunks = vec![b.slice(..mid), b.slice(mid..)];
+            rq.stalls = vec![0, self.stall_secs];
+        }
     }
 
     fn chunks(&mut self, data: &[u8]) -> Vec<bytes::Bytes> {
@@ -676,6 +722,10 @@ impl Driver {
             Via::Http => {
                 let chunks = self.chunks(data);
                 let mut rq = req_add_version(c, parent, chunks);
+                self.slow(&mut rq, data);
+                if let Some(p) = &self.ct_params {
+                    rq.headers[1].1.extend_from_slice(p.as_bytes());
+                }
                 if self.content_length {
                     rq.headers.push(("Content-Length".into(), data.len().to_string().into_bytes()));
                 }
@@ -713,6 +763,10 @@ impl Driver {
             Via::Http => {
                 let chunks = self.chunks(data);
                 let mut rq = req_add_snapshot(c, v, chunks);
+                self.slow(&mut rq, data);
+                if let Some(p) = &self.ct_params {
+                    rq.headers[1].1.extend_from_slice(p.as_bytes());
+                }
                 if self.content_length {
                     rq.headers.push(("Content-Length".into(), data.len().to_string().into_bytes()));
                 }
